@@ -31,7 +31,7 @@ T = {
          TB + "LAPACK eig and float rounding are parameters/tolerances, not proved"),
  'C05': ("Lean refinement theorems: the flat-offset index arithmetic of RaggedArray reads equals reading the list of rows, per index form; "
          "grammar-driven and exhaustive small-scope differential reads against a list-of-rows oracle",
-         TB + "numpy fancy indexing on the flat buffer; regions where the unchanged code is wrong are open known findings with _partial theorems"),
+         TB + "numpy fancy indexing on the flat buffer; dtype and cell dimensions are checked by the Python oracle only"),
  'C06': ("Lean refinement over operation histories: every writer keeps data/array/lengths coherent and refines a list-of-rows interpreter (induction over the op list); "
          "random-history differential runs with all observers compared after every step",
          TB + "aliasing/copy semantics are checked by probes only"),
@@ -39,8 +39,8 @@ T = {
          "sink MFPTs and the all-pairs table satisfy their first-step equations, agree column by column and are linear in the lag; exact certified Rat solutions compared with the real code",
          TB + "LAPACK/SuperLU solvers are parameters with contracts (checked per case by exact residual certificates), floats compared within 1e-9"),
  'C08': ("Lean theorems: flux definition, net flux = positive part with one direction per pair, conservation at intermediates for reversible chains, no flow into sources/out of sinks, "
-         "total outflow = total inflow, reactive populations form a probability vector vanishing on sources and sinks; differential runs on reversible rational chains, dense and sparse",
-         TB + "floats compared within 1e-9; committors enter through the C07 contract"),
+         "total outflow = total inflow, reactive populations form a probability vector vanishing on sources and sinks when the normaliser is positive (partial; zero normaliser = open known finding with a decide-checked counterexample); differential runs on reversible rational chains incl. near-reducible wells, dense and sparse",
+         TB + "floats compared within condition-number-derived allowances; committors enter through the C07 contract (existence of the solver output proved)"),
  'C09': ("Lean theorems: a PAM update never increases the cost, rejection discards the candidate state wholesale, k and membership of centers in the data are kept, along every accept/reject history; "
          "hybrid cost <= its k-centers start; differential runs with explicit proposals and recorded RNG choices",
          TB + "cost comparison ties within float rounding are skipped and counted"),
@@ -69,7 +69,7 @@ T = {
          "sum <= outflow for the subtract scheme; exhaustive simple-path enumeration against the real code",
          TB + "the bottleneck scheme over-explaining flux is an open known finding (decide-checked counterexample)"),
  'C18': ("Lean theorems: joint counts are exact for every interleaving of the parallel loop, guard soundness, additivity, frame-permutation/relabel invariance; over the reals MI >= 0, symmetry, diagonal = entropy, "
-         "KL >= 0; channel-capacity normalisation entry formula; dtype x layout x thread sweeps and libm-evaluated term lists",
+         "KL >= 0; channel-capacity normalisation entry formula; kernel statements and fused dtype lists regenerated from libinfo.pyx each run and re-decided; dtype x layout x thread sweeps and libm-evaluated term lists",
          TB + "fewer than 2^32 frames; libm log; compiled object sampled only"),
  'C19': ("Lean: masked element-wise operations are garbage-independent iff every masked-out cell comes from an initialised out; the list of masked-ufunc call sites and empty-allocation sites is regenerated from /repo's source "
          "on every run and the obligation `all sites pass out=` is re-decided; kernels zero outputs; perturbation runs (repeat, threads, heap poisoning, MALLOC_PERTURB_, argument snapshots) over the numerical API",
